@@ -22,6 +22,8 @@ pub enum Op {
     Add(Id, usize, u64),
     Del(Id, usize),
     Write(Id, usize, u64),
+    /// several entry operations through one entry handle: (kind 0 add / 1 del / 2 write / 3 read, component, value)
+    Chain(Id, Vec<(u8, usize, u64)>),
     Reserve { shape: Vec<u8>, n: usize },
     Shrink,
     Clone { src: usize, e: u64 },
@@ -101,6 +103,7 @@ impl Op {
             Op::Add(id, c, v) => format!("op {} add {} {} {}", w, fmt_id(*id), c, v),
             Op::Del(id, c) => format!("op {} del {} {}", w, fmt_id(*id), c),
             Op::Write(id, c, v) => format!("op {} write {} {} {}", w, fmt_id(*id), c, v),
+            Op::Chain(id, steps) => format!("op {} chain {} {}", w, fmt_id(*id), steps.iter().map(|(k, c, v)| format!("{}:{}:{}", ["a", "d", "w", "r"][*k as usize], c, v)).collect::<Vec<_>>().join(",")),
             Op::Reserve { shape, n } => format!("op {} reserve {} {}", w, fmt_list(shape), n),
             Op::Shrink => format!("op {} shrink", w),
             Op::Clone { src, e } => format!("op {} clone {} {}", w, src, e),
@@ -151,6 +154,16 @@ impl Op {
             ("add", 3) => Op::Add(parse_id(a[0])?, a[1].parse().ok()?, a[2].parse().ok()?),
             ("del", 2) => Op::Del(parse_id(a[0])?, a[1].parse().ok()?),
             ("write", 3) => Op::Write(parse_id(a[0])?, a[1].parse().ok()?, a[2].parse().ok()?),
+            ("chain", 2) => {
+                let mut steps = Vec::new();
+                for t in a[1].split(',') {
+                    let f: Vec<&str> = t.split(':').collect();
+                    if f.len() != 3 { return None; }
+                    let k = match f[0] { "a" => 0u8, "d" => 1, "w" => 2, "r" => 3, _ => return None };
+                    steps.push((k, f[1].parse().ok()?, f[2].parse().ok()?));
+                }
+                Op::Chain(parse_id(a[0])?, steps)
+            }
             ("reserve", 2) => Op::Reserve { shape: parse_list(a[0])?, n: a[1].parse().ok()? },
             ("shrink", 0) => Op::Shrink,
             ("clone", 2) => Op::Clone { src: a[0].parse().ok()?, e: a[1].parse().ok()? },
@@ -579,6 +592,10 @@ impl<F: Family + 'static> Interp<F> {
                 true => Some("ok drops=@".into()),
                 false => Some("none".into()),
             },
+            Op::Chain(id, steps) => match F::chain(world, mk_ident(*id), steps)? {
+                Some(reads) => Some(format!("ok drops=@ reads={}", if reads.is_empty() { "-".to_string() } else { reads.iter().map(|r| match r { Some(v) => v.clone(), None => "n".to_string() }).collect::<Vec<_>>().join(",") })),
+                None => Some("none".into()),
+            },
             Op::Reserve { shape, n } => {
                 if F::reserve(world, shape, *n) {
                     Some("ok".into())
@@ -813,6 +830,13 @@ pub fn run_case<F: Family>(it: &mut Interp<F>, name: &str, seed: u64, cfg: &GenC
             Op::Remove(pick_id(&mut g, it))
         } else if r < 56 {
             Op::Clear
+        } else if r < 59 {
+            // several operations through ONE entry handle (location cached in the handle)
+            let id = pick_id(&mut g, it);
+            let n = 2 + g.rng.below(4) as usize;
+            let steps = (0..n).map(|_| { let k = [0u8, 0, 1, 1, 2, 3, 3][g.rng.below(7) as usize]; (k, g.rng.below(F::N.max(1) as u64) as usize, if k == 0 || k == 2 { g.val() } else { 0 }) }).collect();
+            it.bump("chain");
+            Op::Chain(id, steps)
         } else if r < 66 {
             let id = pick_id(&mut g, it);
             Op::Add(id, g.rng.below(F::N.max(1) as u64) as usize, g.val())
@@ -854,7 +878,7 @@ pub fn run_case<F: Family>(it: &mut Interp<F>, name: &str, seed: u64, cfg: &GenC
             let ids = shape.iter().map(|_| g.val()).collect();
             Op::Insert { shape, ids }
         };
-        if F::N == 0 && matches!(op, Op::Add(..) | Op::Del(..) | Op::Write(..)) {
+        if F::N == 0 && matches!(op, Op::Add(..) | Op::Del(..) | Op::Write(..) | Op::Chain(..)) {
             continue;
         }
         let name: &'static str = match &op {
@@ -866,6 +890,7 @@ pub fn run_case<F: Family>(it: &mut Interp<F>, name: &str, seed: u64, cfg: &GenC
             Op::Add(..) => "add",
             Op::Del(..) => "del",
             Op::Write(..) => "write",
+            Op::Chain(..) => "chain",
             Op::Reserve { .. } => "reserve",
             Op::Shrink => "shrink",
             Op::Clone { .. } => "clone",
